@@ -53,6 +53,9 @@ fn ipv4_tcp(k: u8, payload: &[u8]) -> Vec<u8> {
     p.extend_from_slice(&443u16.to_be_bytes());
     p.extend_from_slice(&[0, 0, 0, 1, 0, 0, 0, 1, 0x50, 0x18, 0xff, 0xff, 0, 0, 0, 0]);
     p.extend_from_slice(payload);
+    // what follows the IP total length is link-layer padding: an Ethernet frame is at least 60 bytes (46 of payload),
+    // so short segments arrive with trailing zeros that are not part of the datagram
+    while p.len() < 46 { p.push(0); }
     p
 }
 
@@ -103,14 +106,27 @@ fn run(line: &str) -> String {
                 let ip = Ip4::new([10, 1, (c >> 8) as u8, c as u8], [10, 0, 1, 1]);
                 let mut tcp = Tcp::new(20000 + c as u16, 443, ACK | PSH);
                 tcp.payload = payload.to_vec();
-                ether4(&ip, &tcp)
+                let mut f = ether4(&ip, &tcp);
+                while f.len() < 60 { f.push(0); }      // Ethernet minimum frame size: zero padding after the IP datagram
+                f
             };
+            // order: s = segment-major burst, c = connection-major burst, w<ms> = "slow" connections: the first segment of
+            // every connection, then nothing at all for <ms> milliseconds (several worker timeouts of 10 ms), then the rest
             let mut frames = vec![];
+            let mut pause_after: Option<(usize, u64)> = None;
             if t[3] == "s" { for ch in &chunks { for c in 0..nconn { frames.push(frame(c, ch)); } } }
+            else if let Some(ms) = t[3].strip_prefix('w') {
+                for c in 0..nconn { frames.push(frame(c, &chunks[0])); }
+                pause_after = Some((frames.len(), ms.parse().unwrap()));
+                for c in 0..nconn { for ch in &chunks[1..] { frames.push(frame(c, ch)); } }
+            }
             else { for c in 0..nconn { for ch in &chunks { frames.push(frame(c, ch)); } } }
             let (tx, rx) = std::sync::mpsc::channel();
             let pool = match huginn_net_tls::WorkerPool::new(workers, 16384, 32, 10, tx, 4096, None) { Ok(p) => p, Err(_) => return "POOLERR".into() };
-            for f in frames { if let huginn_net_tls::DispatchResult::Dropped = pool.dispatch(f) { return "POOLERR dropped".into(); } }
+            for (i, f) in frames.into_iter().enumerate() {
+                if let Some((at, ms)) = pause_after { if i == at { std::thread::sleep(std::time::Duration::from_millis(ms)); } }
+                if let huginn_net_tls::DispatchResult::Dropped = pool.dispatch(f) { return "POOLERR dropped".into(); }
+            }
             let mut toks: Vec<String> = vec![];
             let (mut quiet, mut idle) = (0, 0);
             loop {
@@ -255,6 +271,36 @@ fn gen(r: &mut Rng, tier: &Tier, out: &mut Vec<String>) {
         let ch = cut_at(&rec, &cuts);
         out.push(format!("W {} {} {} {}", r.range(1, 2), r.range(100, 160), if r.chance(1, 2) { "s" } else { "c" },
                          ch.iter().map(|c| hex_or_dash(c)).collect::<Vec<_>>().join(" ")));
+    }
+    // slow connections on the pool: first segment, a pause of several worker timeouts with nothing queued, then the rest
+    for i in 0..tier.scale(5, 40) {
+        let rec = recs[i % corpus.max(1).min(recs.len())].clone();
+        let n = r.range(1, 3) as usize;
+        let mut cuts = random_cuts(r, rec.len() - 1, n);
+        for c in cuts.iter_mut() { if *c < 5 { *c = 5; } }
+        cuts.sort(); cuts.dedup();
+        let ch = cut_at(&rec, &cuts);
+        out.push(format!("W {} {} w{} {}", r.range(1, 2), r.range(1, 6), r.range(50, 80),
+                         ch.iter().map(|c| hex_or_dash(c)).collect::<Vec<_>>().join(" ")));
+    }
+    // tiny non-final segments (1..5 payload bytes): their frames carry Ethernet padding after the IP datagram
+    for i in 0..tier.scale(40, 400) {
+        let rec = recs[i % recs.len()].clone();
+        if rec.len() < 40 { continue; }
+        let a = r.range(5, (rec.len() - 20) as u64) as usize;
+        let mut cuts = vec![a];
+        let mut p = a;
+        for _ in 0..r.range(1, 3) { p += r.range(1, 5) as usize; if p < rec.len() - 1 { cuts.push(p); } }
+        if r.chance(1, 3) { let q = r.range(p as u64 + 1, rec.len() as u64 - 1) as usize; cuts.push(q); }
+        cuts.sort(); cuts.dedup();
+        let ch = cut_at(&rec, &cuts);
+        out.push(p_line(8, &ch.iter().map(|x| (7u8, x.clone())).collect::<Vec<_>>()));
+        // the pool oracle expects one result per connection: only records the analyzer admits (record version 0x0300..0x0304)
+        if i % 8 == 0 && rec[1] == 3 && rec[2] <= 4 {
+            out.push(format!("W {} {} {} {}", r.range(1, 2), r.range(2, 20), *r.pick(&["s", "c"]),
+                             ch.iter().map(|c| hex_or_dash(c)).collect::<Vec<_>>().join(" ")));
+        }
+        if i % 5 == 0 { out.push(c_line(&ch)); }
     }
     // malformed: damaged records split anywhere
     for _ in 0..tier.scale(300, 3000) {
